@@ -59,6 +59,12 @@ AppliedOK(e) ==
              /\ (e.spy[k] = 1) => on
              /\ (on /\ AllBase(e.i)) => e.spy[k] = 1
 
+RuleOps == {"enable", "disable", "chain_toggle", "configure", "use", "enter_reset", "exit_reset"}
+ChainsOK(e) ==
+    /\ e.applied.main = Masks(active'[e.i])
+    /\ \A k \in DOMAIN e.applied.term :
+          e.applied.term[k][2] = TermMask(active'[e.i], e.applied.term[k][1])
+
 ExpectedOut(e) ==
     CASE e.op \in {"enable", "disable"} -> Last.out
       [] e.op = "fault" -> e.exc
@@ -73,6 +79,7 @@ Check(e) ==
     ELSE IF e.op = "parse" /\ e.res # e.fresh THEN "differs_from_fresh_instance"
     ELSE IF e.op = "parse" /\ \E p \in F : p[1] = Key(e) /\ p[2] # e.res THEN "not_functional"
     ELSE IF e.op = "parse" /\ ~AppliedOK(e) THEN "applied_ne_reported"
+    ELSE IF e.op \in RuleOps /\ live'[e.i] /\ e.applied.main # <<>> /\ ~ChainsOK(e) THEN "applied_ne_reported_after_management_call"
     ELSE "ok"
 
 Consume ==
